@@ -18,6 +18,10 @@ pub struct Pair {
 /// The `var` kind: a variable-size element (0..=4 bytes).
 pub type Var = ssz_types::VariableList<u8, typenum::U4>;
 
+/// The `nl` kind: a nested milhouse collection used as an element (0..=64 `u64`s, inner tree depth 4,
+/// so hashing one element forks inside the outer leaf's hash computation).
+pub type Nl = milhouse::List<u64, typenum::U64>;
+
 /// Everything the driver needs from an element type.
 pub trait Elem:
     milhouse::Value + Send + Sync + Default + Serialize + DeserializeOwned + 'static
